@@ -1,5 +1,5 @@
 (* C06 property theorems: statements closed by [exact lemma] + Print Assumptions. *)
-From V Require Import Common.Base C06.TsTokens C06.SkipType C06.SkipMono C06.TypeGrammar C06.SkipProofs C06.SkipProofs6 C06.TypeArgsExpr C06.Erase C06.Enum gen.TsTargetsGen C06.TsTarget.
+From V Require Import Common.Base C06.TsTokens C06.SkipType C06.SkipMono C06.TypeGrammar C06.SkipProofs C06.SkipProofs6 C06.TypeArgsExpr C06.Erase C06.Enum gen.TsTargetsGen C06.TsTarget C06.ParamProps.
 
 (* fuel is a model artefact: a result other than "out of fuel" never changes
    when more fuel is given (all 19 mutually recursive routines) *)
@@ -127,3 +127,34 @@ Theorem effective_use_define_is_typescript_rule : forall explicit target,
   effective_define explicit (match target with Some n => go_target n | None => None end) = spec_define explicit target.
 Proof. exact effective_define_is_rule. Qed.
 Print Assumptions effective_use_define_is_typescript_rule.
+
+(* parameter properties + instance field initialisers under assign semantics
+   (constructor(private x, public y = e) and f = init): ORDER -- the lowered
+   constructor is [statements before super()] super() [this.x = x in parameter
+   order] [field initialisers in declaration order] [rest of the body]; without a
+   base class the generated statements come first *)
+Theorem parameter_properties_order : forall derived params fields body,
+  (derived = true -> existsb is_super body = true) ->
+  exists pre post,
+    body = pre ++ (if derived then [SSuper] else []) ++ post /\
+    (derived = true -> existsb is_super pre = false) /\ (derived = false -> pre = []) /\
+    lower derived params fields body =
+      Some (pre ++ (if derived then [SSuper] else []) ++
+            map SAssignParam (map fst (filter snd params)) ++ map SFieldInit fields ++ post).
+Proof. exact lower_order_all. Qed.
+Print Assumptions parameter_properties_order.
+
+(* ONCE: the user's statements are all kept, in their order, and the generated
+   statements are exactly the listed ones *)
+Theorem parameter_properties_preserve_body : forall derived params fields body out,
+  forallb user_stmt body = true -> lower derived params fields body = Some out ->
+  filter user_stmt out = body /\ filter (fun s => negb (user_stmt s)) out = generated params fields.
+Proof. exact lower_preserves_body_all. Qed.
+Print Assumptions parameter_properties_preserve_body.
+
+Theorem parameter_property_assigned_once : forall derived params fields body out x,
+  forallb user_stmt body = true -> lower derived params fields body = Some out ->
+  NoDup (map fst params) -> In (x, true) params ->
+  count_occ Z.eq_dec (flat_map (fun s => match s with SAssignParam n => [n] | _ => [] end) out) x = 1%nat.
+Proof. exact param_assigned_once_all. Qed.
+Print Assumptions parameter_property_assigned_once.
